@@ -286,6 +286,19 @@ Definition settle (res : result) : result :=
 Definition render (p : proj) (ctx : option nat) (r : ref) : result :=
   settle (convert_link p ctx r).
 
+(* MetaMarkdown.convert(source, context, path) assigns current_context := context on every call
+   (reset() clears it): the state of the instance after a conversion is that conversion's own
+   context argument, and a conversion is rendered in its own argument -- e.g. the project summary,
+   converted right after the last entity's documentation and without a context, has none *)
+Definition md_convert (p : proj) (st : option nat) (ctx : option nat) (r : ref)
+  : option nat * result := (ctx, render p ctx r).
+Fixpoint md_run (p : proj) (st : option nat) (calls : list (option nat * ref)) : list result :=
+  match calls with
+  | [] => []
+  | (ctx, r) :: calls' =>
+    let (st', res) := md_convert p st ctx r in res :: md_run p st' calls'
+  end.
+
 (* ------------------------------------------------------------------------------------------ *)
 (* Spec — user guide "Links" + the property text.
 
